@@ -76,6 +76,27 @@ Definition chk_parse (c : parse_case) : bool :=
   let '(t, ma, line, cs, e) := c in
   outcome_matches (parse_command (table_oracle t) (mk_config ma CHECK_DEPTH) line cs) e.
 
+(* Inputs nested between the depths at which the model's budget and Python's
+   stack certainly agree: the implementation must give the result of the
+   unbounded parse or a tagged BAD for the same tag (RecursionError caught by
+   the guard) *)
+Definition DEEP_DEPTH : nat := 3000.
+Definition outcome_tag (m : outcome) : option bytes :=
+  match m with
+  | OCmd _ tag _ => Some tag
+  | OInvalid tag _ => Some tag
+  | _ => None
+  end.
+Definition chk_parse_deep (c : parse_case) : bool :=
+  let '(t, ma, line, cs, e) := c in
+  let m := parse_command (table_oracle t) (mk_config ma DEEP_DEPTH) line cs in
+  outcome_matches m e ||
+  match e, outcome_tag m with
+  | EInvalid 2 tag, Some tag' => bytes_eqb tag tag'
+  | EInvalid 2 _, None => true
+  | _, _ => false
+  end.
+
 (* every byte value 0..255 between a prefix and a suffix, no oracle needed:
    (prefix, suffix, the 256 observed outcomes in order) *)
 Definition empty_table : otable := mk_table [] [] [].
